@@ -58,6 +58,22 @@ def headIn (r : Rate) (xIn n : Nat) (factor : Option Nat) : Nat :=
   | none => headBase r xIn n
   | some k => headBase r xIn n * r.p ^ k / r.q ^ k
 
+/-! ### `padding="same"` (stride 1, dilation 1)
+
+torch pads `k - 1` in total (`(k-1)/2` before, the rest after), so the output of a convolution with
+**any** kernel size `k ≥ 1` has the input's size (`Props/C14.same_padding_preserves_size`; validated
+against real `nn.Conv2d(padding="same")` modules on every run).  This is why `kernel_size` does not
+appear in the ops below: `Op.conv` leaves the size unchanged. -/
+def sameConvOut (n k : Nat) : Nat :=
+  let total := k - 1
+  let left := total / 2
+  let right := total - left
+  n + left + right + 1 - k
+
+/-- the same convolution with the explicit symmetric padding `k // 2` (NOT what the code uses):
+    grows the map by one for even `k` -/
+def explicitHalfPadOut (n k : Nat) : Nat := n + 2 * (k / 2) + 1 - k
+
 /-! ## results -/
 
 inductive Err
@@ -203,6 +219,8 @@ structure Cfg where
   fixMid : Bool := false
   /-- tree carries `fixes/C14-wrapper-output-stride.patch` (wrapper decoders stop at `output_stride`) -/
   fixWrap : Bool := false
+  /-- ConvNeXt `stem_patch_kernel` / Swin `patch_size` (square); the stem conv has `padding = 1` hard-coded -/
+  stemKernel : Nat := 4
 deriving DecidableEq, Repr
 
 /-- `UNet.from_config`: `(stem_blocks, down_blocks, up_blocks)`. -/
@@ -296,13 +314,13 @@ def build (c : Cfg) : Res Built :=
   | .convnext =>
     let ch := convnextChannels c.variant
     let c0 := ch.getD 0 0; let c1 := ch.getD 1 0; let c2 := ch.getD 2 0; let c3 := ch.getD 3 0
-    let enc := [Op.sconv c.inCh c0 4 c.stem 1, .tap, .sconv c0 c1 2 2 0, .tap, .sconv c1 c2 2 2 0, .tap,
+    let enc := [Op.sconv c.inCh c0 c.stemKernel c.stem 1, .tap, .sconv c0 c1 2 2 0, .tap, .sconv c1 c2 2 2 0, .tap,
                 .sconv c2 c3 2 2 0]
     (decBuild c0 c.rate 3 (wrapUp c.fixWrap c.stem c.bos) c3 (c.stem * 4) c.bos).bind fun dec =>
       .ok { enc := enc, xIn := c3, dec := dec }
   | .swint =>
     let e := swintEmbed c.variant
-    let enc := [Op.sconv c.inCh e 4 c.stem 1, .tap, .merge, .tap, .merge, .tap, .merge]
+    let enc := [Op.sconv c.inCh e c.stemKernel c.stem 1, .tap, .merge, .tap, .merge, .tap, .merge]
     (decBuild e c.rate 3 (wrapUp c.fixWrap c.stem c.bos) (e * 8) (c.stem * 4) c.bos).bind fun dec =>
       .ok { enc := enc, xIn := e * 8, dec := dec }
 
